@@ -59,6 +59,7 @@ type (
 		consumerMembers map[string]*consumerMember
 		partitionEpochs map[uuid]map[int32]int32 // (topicID, partition) -> owning member's epoch; -1 or absent means free
 		lastTopicMeta   topicMetaSnap            // last snapshot received, for recomputation on member removal
+		lastTopicGen    uint64                   // topicMetaGen of lastTopicMeta: a heartbeat dispatched before a topic change must not overwrite the newer snapshot that change installed
 
 		quit   sync.Once
 		quitCh chan struct{}
@@ -218,13 +219,17 @@ func (c *Cluster) snapshotTopicMeta() topicMetaSnap {
 // calls c.admin() and replies go to cc.respCh (drained by the
 // connection write goroutine, not the run loop).
 func (c *Cluster) notifyTopicChange() {
+	gen := c.topicMetaGen.Add(1)
 	snap := c.snapshotTopicMeta()
 	for _, g := range c.groups.gs {
 		select {
 		case g.controlCh <- func() {
+			// Always keep the newest snapshot, members or not: a first
+			// heartbeat dispatched before this change (carrying the older
+			// snapshot) can be processed after it.
+			g.lastTopicMeta, g.lastTopicGen = snap, gen
 			if len(g.consumerMembers) > 0 {
 				g.groupEpoch++
-				g.lastTopicMeta = snap
 				g.computeTargetAssignment(snap)
 				g.updateConsumerStateField()
 				g.persistMeta848()
@@ -237,9 +242,9 @@ func (c *Cluster) notifyTopicChange() {
 	for _, sg := range c.shareGroups.gs {
 		select {
 		case sg.controlCh <- func() {
+			sg.lastTopicMeta, sg.lastTopicGen = snap, gen
 			if len(sg.members) > 0 {
 				sg.groupEpoch++
-				sg.lastTopicMeta = snap
 				sg.recomputeAssignments()
 			}
 		}:
@@ -863,7 +868,9 @@ func (g *group) dispatchReq(creq *clientReq) (kmsg.Response, bool) {
 	case *kmsg.OffsetDeleteRequest:
 		return g.handleOffsetDelete(creq), true
 	case *kmsg.ConsumerGroupHeartbeatRequest:
-		g.lastTopicMeta = creq.topicMeta
+		if creq.metaGen >= g.lastTopicGen {
+			g.lastTopicMeta, g.lastTopicGen = creq.topicMeta, creq.metaGen
+		}
 		return g.handleConsumerHeartbeat(creq), true
 	}
 	return nil, true
@@ -1847,7 +1854,7 @@ start:
 		gs.gs[req.Group] = g
 		go g.manage(func() {})
 	}
-	creq.topicMeta = gs.c.snapshotTopicMeta()
+	creq.topicMeta, creq.metaGen = gs.c.snapshotTopicMeta(), gs.c.topicMetaGen.Load()
 	select {
 	case g.reqCh <- creq:
 	case <-g.quitCh:
